@@ -1,6 +1,7 @@
 import ScpiVerif.Drv.Parse
 import ScpiVerif.Drv.ParseJudge
 import ScpiVerif.Drv.ParamJudge
+import ScpiVerif.Drv.StatusJudge
 namespace ScpiVerif.Drv
 open ScpiVerif.Ctx
 
@@ -14,7 +15,9 @@ def runParse (cfg : String) (inp : List String) (obs : List String) : Option Ver
   -- P9: what A leaves unconsumed in the input buffer is decided by the (proved) input model; anything else is residue of
   -- consumed messages that the next message would be glued to
   let residue := if mode == "P9" ∧ (obsK.find? (·.startsWith "K")) != (mo.find? (·.startsWith "K")) then ["C09.input_residue"] else []
-  let rej := (residue ++ judgeParse mode cmds inp obs ++ judgeParams cmds ra ++ (if mode == "P" then [] else judgeParams cmds rb)).eraseDups
+  -- sessions with status snapshots (domain p21): C11 / C12 judged on the registers between the messages
+  let status := if mode == "P" ∧ obs.any (·.startsWith "s") then judgeStatus cmds ((inp.getD 2 "").toNat?.getD 0) obs else []
+  let rej := (residue ++ judgeParse mode cmds inp obs ++ judgeParams cmds ra ++ (if mode == "P" then [] else judgeParams cmds rb) ++ status).eraseDups
   let tags := [mode] ++ parseTags obs ++ (if mode == "PU" then [if puConclusive inp then "unit_isolation_conclusive" else "unit_isolation_inconclusive"] else [])
   -- static-heap build: whether a text is stored depends on the heap (C20, domain H); the context model keeps every
   -- text, so the drained queue is compared by codes only in that configuration
